@@ -571,6 +571,15 @@ def run(program, rep, tier):
                why='after process() a query still reports the components of '
                'the deleted entity')
 
+    # ---- the identifier of an entity awaiting deletion is NOT free yet: an
+    # automatic id is handed out only after a test on the row table itself
+    # (entity_exists() denies pending entities) - C01's rule
+    rep.borrow(c01.check_fresh_id, program, rep,
+               keep=lambda o: o.rule == 'C01.fresh-id',
+               rename=lambda r: 'C05.free-id',
+               why='the id of an entity that is still awaiting deletion is '
+               'handed out again: the new entity is merged into the dying row '
+               'and deleted at the next process()')
     # ---- clear ----------------------------------------------------------------
     cl = program.method('World', 'clear')
     wipes = [n for n in ast.walk(cl.node) if isinstance(n, ast.Call)
